@@ -291,6 +291,14 @@ func genRuleItems(t *rapid.T, kind string, v desc.V, mg *msgGen, maxRules int, w
 			if rapid.Bool().Draw(t, "inHit") && safeOpt(canon) {
 				opts[rapid.IntRange(0, 2).Draw(t, "inPos")] = canon
 			}
+			if rapid.IntRange(0, 3).Draw(t, "inQuoted") == 1 {
+				// options written in quotes, one of them with a comma inside (the list of rules AND the list of
+				// options are then split quote-aware, one inside the other)
+				for i := range opts {
+					opts[i] = "'" + opts[i] + "'"
+				}
+				opts = append(opts, "'zz,q'")
+			}
 			items = append(items, "in=("+strings.Join(opts, "/")+")"+mg.next(t))
 		case "include":
 			opts := []string{"zz", "q1"}
